@@ -605,11 +605,16 @@ where
 		let mut is_init_secure_api = OwnerV3Helpers::is_init_secure_api(&val);
 		let mut was_encrypted = false;
 		let mut encrypted_req_id = JsonId::StrId(String::from(""));
+		// The session key as it is now: the key this request is decrypted with is also the key
+		// its reply is encrypted with, whatever happens to the session key while the call is
+		// being served (another party may perform the key exchange in the meantime; the reply
+		// would otherwise be readable by that party and not by the caller)
+		let request_key = Arc::new(Mutex::new(key.lock().clone()));
 		if !is_init_secure_api {
-			if let Err(v) = OwnerV3Helpers::check_encryption_started(key.clone()) {
+			if let Err(v) = OwnerV3Helpers::check_encryption_started(request_key.clone()) {
 				return Ok(v);
 			}
-			let res = OwnerV3Helpers::decrypt_request(key.clone(), &val);
+			let res = OwnerV3Helpers::decrypt_request(request_key.clone(), &val);
 			match res {
 				Err(e) => return Ok(e),
 				Ok(v) => {
@@ -632,7 +637,7 @@ where
 				}
 				if was_encrypted {
 					let res = OwnerV3Helpers::encrypt_response(
-						key.clone(),
+						request_key.clone(),
 						&encrypted_req_id,
 						&unencrypted_intercept,
 					);
